@@ -34,7 +34,38 @@ def section(draw, lo, nrw, kind, depth):
 
 
 @st.composite
+def many_holds(draw, ctx):
+    """"any number of readers may hold it together": a large number of simultaneous read
+    holds (around the 8-, 16- and 17-bit boundaries), then a writer that must wait for all of
+    them.  Real threads only: under dsched 65536 lock calls exceed the step budget."""
+    n = draw(st.sampled_from([255, 256, 257, 1000, 65535, 65536, 65536, 65537, 131072]))
+    split = draw(st.integers(1, 3))
+    lines = ["cfg seed=%d native=1 tick=1000" % draw(st.integers(0, 1 << 20)),
+             "pool 0 kind=fifo access=mpmc", "xs 0 sched=default pools=0",
+             "pool 1 kind=fifo access=mpmc", "xs 1 sched=basic pools=1", "rwlock 0"]
+    parts = [n // split] * split
+    parts[0] += n - sum(parts)
+    units, main = [], []
+    for i, k in enumerate(parts):
+        units.append("unit %d type=ult named=1 pool=%d : rdlockn 0 %d; fset %d; fwait 9; rwunlockn 0 %d" %
+                     (i, draw(st.integers(0, 1)), k, i + 1, k))
+        main.append("create %d" % i)
+    w = len(units)
+    units.append("unit %d type=ult named=1 pool=1 : %s; wrlock 0; work 1; rwunlock 0" %
+                 (w, "; ".join("fwait %d" % (i + 1) for i in range(split))))
+    main.append("create %d" % w)
+    main += ["fwait %d" % (i + 1) for i in range(split)] + ["yieldn %d" % draw(st.integers(2, 6)), "fset 9"]
+    main += ["free %d" % i for i in range(len(units))]
+    lines += units
+    lines.append("main : " + "; ".join(main))
+    lines.append("note many n=%d" % n)
+    return "\n".join(lines) + "\n"
+
+
+@st.composite
 def cases(draw, ctx):
+    if ctx.get("variant") == "many":
+        return draw(many_holds(ctx))
     topo, npools, nxs = draw(simple_topology(max_xs=3))
     lines = [draw(sched_line(ctx))] + topo
     nrw = draw(st.sampled_from([1, 1, 2]))
@@ -126,12 +157,14 @@ def classify(text, res, ctx):
 
 
 def nontrivial(text, res, ctx):
+    if "note many" in text:
+        return stat(res, "writer_waits") >= 1 and stat(res, "max_read_holds") >= 255
     return (stat(res, "writer_waits_for_2_readers") >= 1 or
             stat(res, "reader_joins_with_writer_queued") >= 1)
 
 
 PLAN = {
-    "quick": [("coarse", 10, 250), ("san", 4, 80), ("native", 2, 150)],
+    "quick": [("coarse", 10, 250), ("san", 4, 80), ("native", 2, 150), ("native", 1, 40, "many")],
     "thorough": [("coarse", 6, 5000), ("fine", 6, 3000), ("san", 2, 1500), ("nopool", 1, 1000),
-                 ("native", 1, 2500)],
+                 ("native", 1, 2500), ("native", 1, 300, "many")],
 }
